@@ -9,7 +9,8 @@ Props/C04Order.lean; nothing there is changed).
 2. Per-type limits composed with both routes for the real converter family `Types.conv`
    (`C04_reject_overlong_string_*`, `C04_reject_overlimit_integer_*`, `C04_reject_foreign_token_*`,
    `C04_accept_at_limit_*`).
-3. `ValidFull`: all constraint kinds, recursively; `C04_sound_full_tree`, `C04_sound_full_kw_partial`.
+3. `ValidFull`: all constraint kinds, recursively; `C04_sound_full_tree`, `C04_sound_full_kw` (no guard);
+   `C04_reject_reqmutex_empty_text_kw`.
 4. The hand-coded `validate_args` rules: `C04_reject_extra_kw/_tree`, one declarative violation per rule kind.
 -/
 import OfxProofs.Lemmas.C04Ext
@@ -347,7 +348,7 @@ theorem conv_required_none (enums : List (List Str)) (k : Kind) (hl : k.isList =
 theorem C04_reject_required_omitted_conv_kw (S : Schema) (ci : Nat) (c : Cls) (args : List Node)
     (kw : List (Str × Node)) (a : Attr) (hc : S.cls? ci = some c) (ha : a ∈ c.spec)
     (hl : a.kind.isList = false) (hu : a.kind.isUnsupported = false) (hreq : a.required = true)
-    (hng : ¬ Given kw a.name) : ∃ e, construct S Types.conv ci args kw = .error e := by
+    (hng : ¬ Present kw a.name) : ∃ e, construct S Types.conv ci args kw = .error e := by
   cases hst : Kind.subTarget a.kind with
   | some t =>
     have hk : a.kind = .sub t := by cases hk : a.kind <;> simp_all [Kind.subTarget]
@@ -426,19 +427,17 @@ def SchemaOk (S : Schema) : Prop :=
     its class all the way down, then so does the instance returned: required elements and sub-aggregates present,
     at most one member of every at-most-one group, exactly one of every exactly-one group, enumerated values in
     their sets, strict strings within their length, integers within their digits, sub-aggregates and list members
-    of the declared classes, list-content rules of the hand-coded `validate_args`.
-    Guard (`NoEmptyStr`): no keyword argument is the empty string — see `C04_sound_full_kw_full_false`. -/
-theorem C04_sound_full_kw_partial (S : Schema) (hS : SchemaOk S) (ci : Nat) (args : List Node)
+    of the declared classes, list-content rules of the hand-coded `validate_args`.  No guard on the arguments. -/
+theorem C04_sound_full_kw (S : Schema) (hS : SchemaOk S) (ci : Nat) (args : List Node)
     (kw : List (Str × Node)) (n : Node) (h : construct S Types.conv ci args kw = .ok n)
-    (hne : NoEmptyStr kw)
     (hargs : ∀ m ∈ args, m.isAgg = true → ValidFull S m)
     (hkw : ∀ k v, (k, v) ∈ kw → v.isAgg = true → ValidFull S v) : ValidFull S n := by
   obtain ⟨c, _, _, hc, _⟩ := (construct_ok_iff S Types.conv ci args kw n).mp h
   obtain ⟨hnd, hsup⟩ := hS ci c hc
-  exact validFull_of_construct S ci c args kw n h hc hnd hsup hne hargs hkw
+  exact validFull_of_construct S ci c args kw n h hc hnd hsup hargs hkw
 
-/-- without the guard: everything but the lower bound of the exactly-one groups still holds at the top level — in
-    particular no group, at-most-one or exactly-one, ever has two members set -/
+/-- one level, no premise on the group members: no group, at-most-one or exactly-one, ever has two members set, and
+    the instance is valid at its level as soon as its exactly-one groups have a member -/
 theorem C04_sound_kw_groups_atmost (S : Schema) (ci : Nat) (c : Cls) (args : List Node)
     (kw : List (Str × Node)) (fields : List (Str × Node)) (items : List Node)
     (h : construct S Types.conv ci args kw = .ok (.agg ci fields items)) (hc : S.cls? ci = some c)
@@ -448,18 +447,33 @@ theorem C04_sound_kw_groups_atmost (S : Schema) (ci : Nat) (c : Cls) (args : Lis
   let ⟨⟨h1, h2⟩, _⟩ := nodeFull_of_construct S ci c args kw fields items h hc hnd
   ⟨h2, h1⟩
 
-/-- the full-strength statement for a schema `S`: no guard on the keyword arguments -/
-def C04_sound_full_kw_full (S : Schema) : Prop :=
-  ∀ (ci : Nat) (args : List Node) (kw : List (Str × Node)) (n : Node),
-    construct S Types.conv ci args kw = .ok n →
-    (∀ m ∈ args, m.isAgg = true → ValidFull S m) → (∀ k v, (k, v) ∈ kw → v.isAgg = true → ValidFull S v) →
-    ValidFull S n
+/-- **C04 (exactly-one groups, the empty text, keyword route).** A description in which the only member of an
+    exactly-one group that is passed at all is the empty text `""` (every other member absent or `None`) is rejected:
+    an empty text does not count as a member given.  (Before the repair of `enforce_count` it was counted, and the
+    instance built held no member of the group.) -/
+theorem C04_reject_reqmutex_empty_text_kw (S : Schema) (cv : Conv) (ci : Nat) (c : Cls) (args : List Node)
+    (kw : List (Str × Node)) (g : List Str) (m0 : Str) (hc : S.cls? ci = some c) (hg : g ∈ c.reqMutex)
+    (hm0 : lookup m0 kw = some (.val (.str [])))
+    (hothers : ∀ m ∈ g, m ≠ m0 → ¬ Present kw m) : ∃ e, construct S cv ci args kw = .error e := by
+  apply C04_reject_reqmutex_none S cv ci c args kw g hc hg
+  intro m hm hgiven
+  by_cases hmm : m = m0
+  · subst hmm
+    obtain ⟨v, hl, hv⟩ := hgiven
+    rw [hm0] at hl; injection hl with hl; subst hl
+    simp [given] at hv
+  · exact hothers m hm hmm (Present_of_Given hgiven)
+
+/-- … and in an at-most-one group an empty text next to a given member is no conflict as far as the group is
+    concerned: the count of the group is that of the other members -/
+theorem C04_empty_text_not_counted (kw : List (Str × Node)) (g : List Str)
+    (h : ∀ m ∈ g, Given kw m → False) : mutexCount kw g = 0 :=
+  mutexCount_zero kw g (fun m hm hg => h m hm hg)
 
 mutual
   /-- **C04 (consequence, tree route, all constraint kinds, any depth).**  Every instance `from_etree` returns, with
       the real converters, satisfies all constraints of its class, and so does every instance nested in it, at
-      any depth.  No guard: the reader never hands an empty string to the constructor (a child without text is
-      converted as an aggregate). -/
+      any depth. -/
   theorem C04_sound_full_tree (S : Schema) (hS : SchemaOk S) : ∀ (t : Tree) (n : Node),
       fromEtree S Types.conv t = .ok n → ValidFull S n
     | .node tag x tl children, n, h => by
@@ -474,25 +488,22 @@ mutual
           obtain ⟨hnd, hsup⟩ := hS ci c hc
           split at h
           · exact validFull_of_construct S ci c [] [] n h hc hnd hsup
-              (fun _ _ hm => by cases hm) (fun _ hm => by cases hm) (fun _ _ hm => by cases hm)
+              (fun _ hm => by cases hm) (fun _ _ hm => by cases hm)
           · obtain ⟨acc, hfold, h⟩ := bind_ok h
-            -- every argument collected is `None`, a non-empty text, or a valid instance
-            have hP := foldChildren_vals c
-              (fun v => v ≠ .val (.str []) ∧ (v.isAgg = true → ValidFull S v))
-              ⟨fun hh => (by cases hh), fun hh => (by cases hh)⟩
+            -- every argument collected is `None`, a text, or a valid instance
+            have hP := foldChildren_vals c (fun v => v.isAgg = true → ValidFull S v)
+              (fun hh => (by cases hh))
               children (childInsts S Types.conv children) Accum.init acc hfold
               (by
                 intro ch sub hm v hv
                 obtain ⟨hch, hsub⟩ := mem_zip_childInsts S Types.conv children ch sub hm
                 rcases childValue_cases ch sub v hv with ⟨t0, ts, rfl⟩ | hok
-                · exact ⟨fun hh => (by cases hh), fun hh => (by cases hh)⟩
+                · exact fun hh => (by cases hh)
                 · rw [hsub] at hok
-                  have hv := ih ch hch v hok
-                  refine ⟨?_, fun _ => hv⟩
-                  intro hh; subst hh; exact hv)
+                  exact fun _ => ih ch hch v hok)
               (by intro k v hm; cases hm) (by intro m hm; cases hm)
             exact validFull_of_construct S ci c acc.args acc.kwargs n h hc hnd hsup
-              (fun k v hm => (hP.1 k v hm).1) (fun m hm => (hP.2 m hm).2) (fun k v hm => (hP.1 k v hm).2)
+              (fun m hm => hP.2 m hm) (fun k v hm => hP.1 k v hm)
   theorem C04_sound_full_children (S : Schema) (hS : SchemaOk S) : ∀ (ts : List Tree), ∀ ch ∈ ts, ∀ n,
       fromEtree S Types.conv ch = .ok n → ValidFull S n
     | [], ch, hm, _, _ => by cases hm
@@ -759,9 +770,8 @@ theorem pDoc_read : fromEtree exS Types.conv pDoc = .ok pInst := by rfl
 example : ValidFull exS pInst := C04_sound_full_tree exS exS_ok pDoc pInst pDoc_read
 
 example : ValidFull exS pInst :=
-  C04_sound_full_kw_partial exS exS_ok 0 [qInst, qInst]
+  C04_sound_full_kw exS exS_ok 0 [qInst, qInst]
     [("a".toList, .val (.str "abc".toList)), ("k".toList, .val (.str "X".toList))] pInst (by rfl)
-    (by intro k v hm; simp at hm; rcases hm with ⟨_, rfl⟩ | ⟨_, rfl⟩ <;> exact fun h => by cases h)
     (by
       intro m hm _
       have : m = qInst := by simp at hm; exact hm
@@ -769,19 +779,17 @@ example : ValidFull exS pInst :=
       exact C04_sound_full_tree exS exS_ok qDoc qInst (by rfl))
     (by intro k v hm hagg; simp at hm; rcases hm with ⟨_, rfl⟩ | ⟨_, rfl⟩ <;> cases hagg)
 
-/-- the guard of `C04_sound_full_kw_partial` is needed: `P(a="abc", n="")` is accepted — `validate_args` counts the
-    empty string as a member of the exactly-one group `{n, k}` — and holds neither `n` nor `k` -/
-theorem C04_sound_full_kw_full_false : ¬ C04_sound_full_kw_full exS := by
-  intro h
-  have hv := h 0 [] [("a".toList, .val (.str "abc".toList)), ("n".toList, .val (.str []))]
-    (.agg 0 [("a".toList, .val (.str "abc".toList)), ("n".toList, .val .none), ("k".toList, .val .none),
-             ("z".toList, .val .none)] []) (by rfl) (by intro m hm; cases hm)
-    (by intro k v hm hagg; simp at hm; rcases hm with ⟨_, rfl⟩ | ⟨_, rfl⟩ <;> cases hagg)
-  obtain ⟨c, hc, _, hreq, _⟩ := C04_validFull_groups exS _ _ _ hv
-  have : c = clsP := by injection hc with hc; exact hc.symm
-  subst this
-  have := hreq ["n".toList, "k".toList] (by decide)
-  revert this; decide
+/-- the former counter-example: `P(a="abc", n="")` — the empty text is the only member of the exactly-one group
+    `{n, k}` passed — is now rejected -/
+example : ∃ e, construct exS Types.conv 0 []
+    [("a".toList, .val (.str "abc".toList)), ("n".toList, .val (.str []))] = .error e :=
+  C04_reject_reqmutex_empty_text_kw exS Types.conv 0 clsP [] _ ["n".toList, "k".toList] "n".toList rfl (by decide) rfl
+    (by
+      intro m hm hne
+      simp only [List.mem_cons, List.not_mem_nil, or_false] at hm
+      rcases hm with rfl | rfl
+      · exact absurd rfl hne
+      · rintro ⟨v, h, _⟩; simp [lookup] at h)
 
 /-- the required `A` omitted, on both routes -/
 example : ∃ e, construct exS Types.conv 0 [] [("n".toList, .val (.int 1))] = .error e :=
